@@ -11,11 +11,6 @@ clauses, unknown tags) and render-time errors (evaluation, filters, strict varia
 loop, …) alike.
 -/
 
-/-- no tag token of the list is named `include` (decidable) -/
-def NoIncludeTag (toks : List Token) : Prop := ∀ t ∈ toks, ¬ (t.ty = .tag ∧ t.name = nmInclude)
-
-instance (toks : List Token) : Decidable (NoIncludeTag toks) := by unfold NoIncludeTag; infer_instance
-
 /-- **C07 (every error is located at a tag or object of the source), from source bytes.** Whenever the
     pipeline returns an error `e` for a source none of whose tags is named `include`, there is a token `t`
     of the source — `scan cfg.delims src line = pre ++ t :: rest` — that is a TAG or an OBJECT (never a
@@ -100,11 +95,6 @@ theorem run_error_at_tag_or_object (P : Prims) (O : OutPrims) (cfg : Cfg) (fs : 
       | unmodelled w => rw [hp] at hc; simp [liftPErr, bind, Res.bind] at hc
 
 /-! ## The same for spelled templates: the error points at an item that is a tag or an object -/
-
-/-- no tag of the template is named `include` -/
-def NoIncludeItem (items : List Item) : Prop := ∀ it ∈ items, it.tagName ≠ some nmInclude
-
-instance (items : List Item) : Decidable (NoIncludeItem items) := by unfold NoIncludeItem; infer_instance
 
 /-- **C07 on spelled templates.** For a template `items` (clean, any good delimiters) without an `include`
     tag: an error of `run` on its source text points at an item that is a tag or an object; its line is the
